@@ -106,6 +106,12 @@ def gen_cases(ctx):
           if imin[d] is None:
             imin[d] = float(rng.choice([-1.0, 0.0, -100.0]))
             imax[d] = imin[d] + float(rng.choice([1e-3, 0.5, 1.0, 10.0, 1000.0]))
+        # a feature outside every dominance pair may have a degenerate (constant) input range: still a valid layer
+        in_rdom = set(x for p in rdom for x in p)
+        for d in range(n):
+          if d not in in_rdom and rng.rand() < .25:
+            imin[d] = float(rng.choice([-1.0, 0.0, 2.5]))
+            imax[d] = imin[d]
       order = [None, 1, 2][int(rng.randint(3))]
       kclass, w = _weights(rng, n, units)
       yield {"kind": "linear", "n": n, "units": units, "mono": mono, "mdom": mdom, "rdom": rdom,
